@@ -94,7 +94,7 @@ def main(run: Run) -> int:
     ymax = 2 if thorough else 1
     for k in (1, 2, 3) + ((4,) if thorough else ()):
         for f0 in ((-1,) if k < 3 else (0, 1, 2)):
-            jobs.append({"fn": "select", "globals": {"K": k, "F0": f0, "YMAX": ymax}, "timeout": 900 if k >= 3 else 300, "bound": f"k={k} parts x outcomes {{True,False,None}}^k x plain/awaitable x yields<={ymax} (symbolic)"})
+            jobs.append({"fn": "select", "globals": {"K": k, "F0": f0, "YMAX": 1 if k == 4 else ymax}, "timeout": 1800 if k >= 3 else 300, "bound": f"k={k} parts x outcomes {{True,False,None}}^k x plain/awaitable x yields<={ymax} (symbolic)"})
     ahb_harness.LEVEL = 1 if thorough else 0
     n = len(ahb_harness.cases())
     chunk = 4
